@@ -345,7 +345,8 @@ def run(tier, seed):
     # --- dictattr and subclasses
     allkeys = 'abcde'
     pool = ['a', 'b', 'c', 'd', 'zz', 'yy']
-    sels = list(pool) + [list(t) for k in range(0, (2 if quick else 3) + 1) for t in itertools.product(pool, repeat=k)]
+    # single keys, two absent multi-character keys spelled with the characters of present keys ('ab' is one key, not the keys 'a' and 'b'), lists of keys
+    sels = list(pool) + ['ab', 'dca'] + [list(t) for k in range(0, (2 if quick else 3) + 1) for t in itertools.product(pool, repeat=k)] + [['ab'], ['a', 'dca']]
     for clsname in CLASSES:
         for mask in range(1 << len(allkeys)):
             keys = [k for b, k in enumerate(allkeys) if mask >> b & 1]
